@@ -128,6 +128,22 @@ def property_checks(inp):
         cd = numpy.linalg.cond(Koff)
         if cd < 1e8:
             A(("duplicated sensor is reproduced, zero weight elsewhere", float(numpy.abs(Rd - E).max()), 1e-12 * cd + 1e-13))
+    # duplicated sensor, end to end through the covariance builder: the on-axis sensor equals the first off-axis sensor
+    # (same direction, mask, wavelength, size); the other off-axis sensors have other point-symmetric masks (unequal
+    # sub-aperture counts, in any order) -- inside C01's guard for the cross blocks
+    if inp.get("dup_cfg"):
+        cfg = inp["dup_cfg"]
+        with warnings.catch_warnings():
+            warnings.simplefilter("ignore")
+            cm = scc.build(cfg, 1)
+            M = numpy.asarray(cm.make_covariance_matrix(), dtype=float)
+        n0 = int(numpy.array(scc.MASKS[cfg["masks"][0]]).sum())
+        Kb = M[2 * n0:, 2 * n0:]
+        cb = numpy.linalg.cond(Kb)
+        if cb < 1e5:      # the matrix is stored in binary32: only well-conditioned geometries decide the clause
+            Rb = sc.create_tomographic_covariance_reconstructor(M, n0, 0)
+            Eb = numpy.zeros_like(Rb); Eb[numpy.arange(2 * n0), numpy.arange(2 * n0)] = 1
+            A(("duplicated sensor is reproduced end to end through the covariance builder", float(numpy.abs(Rb - Eb).max()), 1e-6 * cb + 1e-6))
     # history on an object: the reconstructor always comes from the CURRENT matrix
     if inp.get("object_history"):
         cfg = inp["object_history"]
@@ -145,11 +161,27 @@ def property_checks(inp):
     return out
 
 
+SYM_MASKS = ["full2", "full3", "disc3", "ring3", "row2", "diag2", "disc4"]
+
+
+def gen_dup_cfg(rng):
+    a = rng.choice(SYM_MASKS)
+    others = [rng.choice(SYM_MASKS) for _ in range(rng.randint(1, 2))]
+    mk = [a, a] + others
+    d = rng.choice([0.5, 1.0]); nw = len(mk)
+    g0 = [rng.uniform(-20, 20), rng.uniform(-20, 20)]
+    gs = [g0, g0] + [[rng.uniform(-40, 40), rng.uniform(-40, 40)] for _ in others]
+    maxn = max(max(len(scc.MASKS[m]), len(scc.MASKS[m][0])) for m in mk)
+    return {"masks": mk, "d": [d] * nw, "alt": [0.0] * nw, "gs": gs, "wvl": [500e-9] * nw, "D": maxn * d,
+            "layers": [{"h": rng.uniform(2000, 12000), "r0": rng.uniform(0.1, 0.5), "L0": rng.uniform(10, 50)} for _ in range(rng.randint(1, 2))], "uniform": False}
+
+
 def gen_input(rng):
     cfg = scc.gen_config(rng, "small", uniform=True)
     return {"non": rng.randint(1, 4), "b": rng.randint(2, 10), "kind": rng.choice(["full", "deficient", "scaled", "scaled"]),
             "rcond": rng.choice([0, 0, 1e-12, 1e-3, 0.3]), "data_seed": rng.getrandbits(32), "dup_at": rng.randint(0, 9),
-            "object_history": cfg if (len(cfg["masks"]) >= 2 and rng.random() < 0.4) else None}
+            "object_history": cfg if (len(cfg["masks"]) >= 2 and rng.random() < 0.4) else None,
+            "dup_cfg": gen_dup_cfg(rng) if rng.random() < 0.25 else None}
 
 
 def falsify(ctx, deep=False):
